@@ -48,6 +48,9 @@ type Sched struct {
 	Inc     int          // current provider incarnation
 	dead    map[int]bool // crashed incarnations
 	Respond func(c *Call) (interface{}, error) // computes the successful answer at completion time
+	// NoCancel lists methods whose parked calls do not return when their context is cancelled (a
+	// remote call that does not notice the cancellation promptly): they return only when completed.
+	NoCancel map[string]bool
 }
 
 func NewSched(r *core.Run) *Sched {
@@ -67,7 +70,7 @@ func (s *Sched) Do(ctx context.Context, inc int, method, key string, args interf
 	s.pending = append(s.pending, c)
 	s.History = append(s.History, c)
 	s.mu.Unlock()
-	if ctx == nil {
+	if ctx == nil || s.NoCancel[method] {
 		ctx = context.Background()
 	}
 	select {
